@@ -143,6 +143,9 @@ pub enum WOp
     /// Driver level only. Spawn a ref-counted system through one of the four `spawn_rc_*` routes (`variant % 4`), drop the signal at
     /// once (all of it, or keep one clone if `hold`), collect, observe; drop the kept clone, collect, observe.
     RcScratch(u8, bool),
+    /// Driver level only. `n` ref-counted reactors on a scratch entity lose their last handle between two collections: the entity
+    /// they watch is despawned (`mode` even: `Cleanup` reactors) or all are revoked in one batch (`mode` odd: `Revokable`).
+    ReactorBulk(u16, u8),
     /// `world.send_system_event`.
     SysEvent(Inst, P),
     /// `world.broadcast`.
